@@ -8,7 +8,7 @@
     on their domain, refuted beyond it (the C03/C04 findings), and checked on the implementation
     for every other statement kind by walking the image (Check/C03.v). *)
 From Coq Require Import List ZArith String Bool.
-From Gosk Require Import Base.Bytes Model.Ast Model.Eval Model.Asm Model.Encoder Lemmas.C03Lemmas Lemmas.C03General Lemmas.SweepLemmas Lemmas.MemSweepLemmas.
+From Gosk Require Import Base.Bytes Model.Ast Model.Eval Model.Asm Model.Encoder Generated.Tables Spec.Data Lemmas.C05Lemmas Lemmas.C03Lemmas Lemmas.C03General Lemmas.SweepLemmas Lemmas.MemSweepLemmas.
 Import ListNotations.
 Local Open Scope Z_scope.
 
@@ -31,9 +31,9 @@ Proof. exact inv_init. Qed.
 
 Theorem C03_size_jmp_short16 : forall rel, -126 <= rel <= 129 -> zlen (gen_jmp M16 rel) = estimate_jump "JMP" M16.
 Proof. exact size_jmp_short16. Qed.
-Theorem C03_size_jcc_short16 : forall opc rel name, -126 <= rel <= 129 -> name <> "CALL"%string -> zlen (gen_jcc opc rel) = estimate_jump name M16.
+Theorem C03_size_jcc_short16 : forall opc rel name, -126 <= rel <= 129 -> name <> "CALL"%string -> zlen (gen_jcc M16 opc rel) = estimate_jump name M16.
 Proof. exact size_jcc_short16. Qed.
-Theorem C03_size_call16 : forall rel, -32768 <= rel - 5 <= 32767 -> zlen (gen_call rel) = estimate_jump "CALL" M16.
+Theorem C03_size_call16 : forall rel, -32768 <= rel - 3 <= 32767 -> zlen (gen_call M16 rel) = estimate_jump "CALL" M16.
 Proof. exact size_call16. Qed.
 Theorem C03_size_jmp16_refuted : exists rel, zlen (gen_jmp M16 rel) <> estimate_jump "JMP" M16.
 Proof. exact size_jmp16_refuted. Qed.
@@ -73,6 +73,44 @@ Theorem C03_sized_instr : forall (E : encoder) m st dol s op ops n b,
   - 2 ^ 31 <= loc s + n < 2 ^ 31 ->
   sized E m st dol s (push_ocode (add_loc (with_diag s (enc_diag E (bmode s) op ops)) n) (OInstr op ops)).
 Proof. exact sized_instr. Qed.
+
+(* instances of [sized] proved for all inputs: DB/DW/DD with any operand list, RESB, INT, and JMP/Jcc/CALL to a label in
+   16-bit mode on the ranges where pass 1's fixed estimate is right (judged against the label's final value) *)
+Theorem C03_sized_data : forall (E : encoder) m st dol w f s ops ds,
+  C05Lemmas.data_stmt_spec E w f s ops ds -> - 2 ^ 31 <= loc s + zlen (Spec.Data.spec_data w ds) < 2 ^ 31 ->
+  sized E m st dol s (do_data s w f ops).
+Proof. exact sized_data. Qed.
+Theorem C03_sized_resb : forall (E : encoder) m st dol s n, 0 <= n < 2 ^ 31 -> - 2 ^ 31 <= loc s + n < 2 ^ 31 -> sized E m st dol s (do_resb s [ENum n]).
+Proof. exact sized_resb. Qed.
+Theorem C03_sized_int : forall (E : encoder) m st dol s v, 0 <= v <= 255 -> loc s + 2 < 2 ^ 31 -> - 2 ^ 31 <= loc s -> sized E m st dol s (do_int s [ENum v]).
+Proof. exact sized_int. Qed.
+Theorem C03_sized_branch16 : forall (E : encoder) m st dol s name op r lbl d,
+  m = M16 -> bmode s = M16 ->
+  eval_top (env_of s) op = Ev (EImm (FId lbl)) r ->
+  lookup lbl st = Some d ->
+  (name = "JMP"%string /\ -126 <= d - loc s <= 129
+   \/ name = "CALL"%string /\ -32768 <= d - loc s - 3 <= 32767
+   \/ (exists opc, name <> "JMP"%string /\ name <> "CALL"%string /\ lookup name Generated.Tables.jcc_table = Some opc /\ -126 <= d - loc s <= 129)) ->
+  - 2 ^ 31 <= loc s -> loc s + 3 < 2 ^ 31 ->
+  sized E m st dol s (do_jcc s name [op]).
+Proof. exact sized_branch16. Qed.
+(* 32-bit mode: every JMP / Jcc / CALL to a label, at every distance (the rel32 forms are what pass 1 reserves) *)
+Theorem C03_sized_branch32 : forall (E : encoder) m st dol s name op r lbl d,
+  m = M32 -> bmode s = M32 ->
+  eval_top (env_of s) op = Ev (EImm (FId lbl)) r ->
+  lookup lbl st = Some d ->
+  (name = "JMP"%string \/ name = "CALL"%string
+   \/ (exists opc, name <> "JMP"%string /\ name <> "CALL"%string /\ lookup name Generated.Tables.jcc_table = Some opc)) ->
+  - 2 ^ 31 <= loc s -> loc s + 6 < 2 ^ 31 ->
+  sized E m st dol s (do_jcc s name [op]).
+Proof. exact sized_branch32. Qed.
+Theorem C03_size_jmp32 : forall rel, zlen (gen_jmp M32 rel) = estimate_jump "JMP" M32.
+Proof. exact size_jmp32. Qed.
+Theorem C03_size_call32 : forall rel, zlen (gen_call M32 rel) = estimate_jump "CALL" M32.
+Proof. exact size_call32. Qed.
+Theorem C03_size_jcc32 : forall opc rel name, name <> "JMP"%string -> name <> "CALL"%string -> zlen (gen_jcc M32 opc rel) = estimate_jump name M32.
+Proof. exact size_jcc32. Qed.
+Print Assumptions C03_sized_branch16.
 
 (* size agreement by computation: memory operands of every shape (with the decoded meaning, see C01/C02) *)
 Theorem C03_size_cells_mem16 : forall c, In c sweep_mem16 -> ok013 c = true.
